@@ -11,6 +11,8 @@
  *   8 STEP  before every *visible* call (path == target, rename onto target, read on an fd opened on target)
  *           write "op\tpath\n" to ctl_fd and block until one byte arrives on go_fd
  *  16 LOGALL also log out-of-scope path-taking calls (C19), with k = -1
+ *  32 EDIT  immediately BEFORE call number edit_k the ENVIRONMENT rewrites a file (fsshim_set_edit): an external,
+ *           non-cooperating modification that lands between two steps of the code under test
  */
 #define _GNU_SOURCE
 #include <dlfcn.h>
@@ -49,6 +51,12 @@ void fsshim_configure(const char *prefix, const char *target, int mode, int fail
     g_log_fd = log_fd; g_ctl_fd = ctl_fd; g_go_fd = go_fd; g_k = 0;
     memset(g_fdscope, 0, sizeof g_fdscope);
     memset(g_fdtarget, 0, sizeof g_fdtarget);
+}
+static long g_edit_k = -1; static char g_edit_path[4096]; static char g_edit_data[8192]; static size_t g_edit_len = 0;
+void fsshim_set_edit(long k, const char *path, const char *data) {
+    g_edit_k = k; strncpy(g_edit_path, path ? path : "", sizeof g_edit_path - 1);
+    g_edit_len = data ? strlen(data) : 0; if (g_edit_len > sizeof g_edit_data - 1) g_edit_len = sizeof g_edit_data - 1;
+    if (data) memcpy(g_edit_data, data, g_edit_len);
 }
 long fsshim_count(void) { return g_k; }
 void fsshim_disable(void) { g_mode = 0; g_prefix_len = 0; }
@@ -92,6 +100,14 @@ static int gate(long *kout, const char *op, const char *path, int visible) {
     long k = g_k++;
     *kout = k;
     if (visible) step_point(op, path);
+    if ((g_mode & 32) && k == g_edit_k && g_edit_path[0]) {
+        REAL(openat); REAL(close);
+        g_busy = 1;
+        int fd = real_openat(AT_FDCWD, g_edit_path, O_WRONLY | O_CREAT | O_TRUNC, 0644);
+        if (fd >= 0) { raw_write(fd, g_edit_data, g_edit_len); real_close(fd); }
+        g_busy = 0;
+        logline(k, "EDIT", g_edit_path, op, fd >= 0 ? (long)g_edit_len : -1, 0);
+    }
     if ((g_mode & 4) && k == g_exit_k) { logline(k, "EXIT", path, op, 0, 0); _exit(137); }
     if ((g_mode & 2) && k == g_fail_k) { errno = g_fail_errno; return 1; }
     if ((g_mode & 2) && k == g_fail_k2) { errno = g_fail_errno2; return 1; }
